@@ -795,6 +795,7 @@ pub fn run(tier_name: &str, seed: u64) -> i32 {
                         signature: f.signature.clone(),
                         detail: format!("{} [obstacle placed at a waypoint the planner never collision-checked]", f.detail),
                         case: json!({"check": "C12", "case": g}),
+                        origin: Some((shard, run)),
                     });
                 }
             }
@@ -815,6 +816,7 @@ pub fn run(tier_name: &str, seed: u64) -> i32 {
                     signature: f.signature.clone(),
                     detail,
                     case: json!({"check": "C12", "case": min}),
+                    origin: Some((shard, run)),
                 });
             }
         }
@@ -843,7 +845,7 @@ pub fn run(tier_name: &str, seed: u64) -> i32 {
         }),
         exhaustive: false,
     };
-    report::finish(meta, tally, wall, &|v| replay_all(&v["case"]))
+    report::finish(meta, tally, wall, &|v| replay_all(&v["case"]), &|shard, run| case_json(tier_name, seed, shard, run))
 }
 
 
@@ -860,4 +862,9 @@ pub fn digest(seed: u64, i: u64) -> Vec<String> {
             format!("C12 {i} {j} {} {:016x} {}", out.log.hex(), simctx::name_hash(&format!("{res:?}")), out.schedule.len())
         })
         .collect()
+}
+
+pub fn case_json(tier_name: &str, seed: u64, shard: usize, run: usize) -> Option<Value> {
+    let t = tier(tier_name);
+    gen_case(seed, shard as u64, run as u64, &t).map(|(c, _)| json!({"check": "C12", "case": c}))
 }
